@@ -171,7 +171,9 @@ theorem step_running (sp : Spec) (w : World) (ev : Event) (S : Tid → Prop) (h 
             · exact h0
             · split
               · exact h0
-              · exact rw_setTask _ _ _ h0 (fun _ => Or.inr (hc (fun hft => absurd hft hf)))
+              · split
+                · exact h0
+                · exact rw_setTask _ _ _ h0 (fun _ => Or.inr (hc (fun hft => absurd hft hf)))
     | jobRefresh t =>
       simp only [step]
       split
@@ -468,7 +470,9 @@ theorem step_ji (sp : Spec) (w : World) (ev : Event) (h : JoinInv sp w) : JoinIn
             · exact ⟨h.1, hrm⟩
             · split
               · exact ⟨h.1, hrm⟩
-              · exact ⟨nij_setTask sp _ _ h.1 (by simp), pendOK_append sp _ _ hrm (single _ rfl)⟩
+              · split
+                · exact ⟨h.1, hrm⟩
+                · exact ⟨nij_setTask sp _ _ h.1 (by simp), pendOK_append sp _ _ hrm (single _ rfl)⟩
     | jobRefresh t =>
       simp only [step]
       split
